@@ -290,9 +290,9 @@ def window_for(draw, entries_list, style, maxT):
     a = draw(pick)
     b = draw(pick)
     r = draw(st.integers(0, 39))
-    if r == 0:
+    if r == 17:  # (Hypothesis favours 0 and the end points of integers(): keep the rare cases off them)
         b = a  # degenerate
-    elif r == 1:
+    elif r == 23:
         a, b = max(a, b), min(a, b)
     elif a > b:
         a, b = b, a
